@@ -1,6 +1,7 @@
 package c01
 
 import (
+	"sync"
 	"crypto/tls"
 	"encoding/binary"
 	"fmt"
@@ -29,8 +30,12 @@ func sshSpecial(cc *lab.CliConn, s gen.Service, sc scenario, c int) (reply int) 
 	r := core.NewRng(int64(sc.Sub), "ssh", c)
 	defer cc.Close()
 	pw := r.PickS([]string{"root", "x", ""})
+	user := r.PickS([]string{"root", "admin", ""})
+	if sc.Force > 0 {
+		user, pw = "root", "root" // the lab configuration accepts root:root
+	}
 	cfg := &ssh.ClientConfig{
-		User:            r.PickS([]string{"root", "admin", ""}),
+		User:            user,
 		Auth:            []ssh.AuthMethod{ssh.Password(pw)},
 		HostKeyCallback: ssh.InsecureIgnoreHostKey(),
 		Timeout:         5 * time.Second,
@@ -50,7 +55,37 @@ func sshSpecial(cc *lab.CliConn, s gen.Service, sc scenario, c int) (reply int) 
 	lp := func(s string) []byte { return append(binary.BigEndian.AppendUint32(nil, uint32(len(s))), s...) }
 	n := r.Range(1, 5)
 	for i := 0; i < n; i++ {
-		switch r.Intn(6) {
+		cs := r.Intn(7)
+		if sc.Force > 0 {
+			cs = sc.Force
+		}
+		switch cs {
+		case 6:
+			// a session channel kept open while far more further channels are opened than any queue of
+			// pending opens holds; then the client goes away
+			var ch ssh.Channel
+			var rq <-chan *ssh.Request
+			ok := withTimeout(3*time.Second, func() { ch, rq, err = conn.OpenChannel("session", nil) })
+			if !ok || err != nil {
+				return
+			}
+			go ssh.DiscardRequests(rq)
+			withTimeout(2*time.Second, func() { ch.SendRequest("shell", r.Bool(), nil) })
+			var wg sync.WaitGroup
+			for j := 0; j < 40; j++ {
+				wg.Add(1)
+				go func() {
+					defer wg.Done()
+					withTimeout(time.Second, func() {
+						if c2, r2, e2 := conn.OpenChannel("session", nil); e2 == nil {
+							go ssh.DiscardRequests(r2)
+							_ = c2
+						}
+					})
+				}()
+			}
+			withTimeout(3*time.Second, wg.Wait)
+			return
 		case 0, 1, 2:
 			var ch ssh.Channel
 			var rq <-chan *ssh.Request
